@@ -91,6 +91,7 @@ inductive WPh where
   | locked               -- Blocking: check under the lock
   | after                -- Blocking: check after the condvar wait
   | parked               -- FutWait::park: check under the list lock
+  | futw                 -- FutWait::wait (blocking recv on a futures queue): check, yield, ...
   deriving DecidableEq, Repr, Inhabited
 
 inductive PC where
@@ -121,10 +122,11 @@ inductive PC where
   | r1 (p : Nat) (sg : Bool)
   | r2 (p : Nat) (sg : Bool)
   | r3 (p : Nat) (sg : Bool)
+  | r3b (p : Nat) (sg : Bool)
   | r4 (p : Nat)
   | r5 (p : Nat) (sg : Bool)
   | r6 (p : Nat)
-  | r7
+  | r7 (sg : Bool)
   | rd (p : Nat) (sg : Bool)
   | rc (p : Nat) (sg : Bool) (seen : Option Nat)
   | r8 (p : Nat) (x : Option Nat)
@@ -145,10 +147,11 @@ inductive PC where
   | psl
   -- handle management
   | cs1 | ds1 | cr1 | dr1
-  | rr1 | rr2 (cur : Nat) | rr3 (old : Nat) | rr4 | rr5
+  | rr1 | rr2 (cur ng : Nat) | rr3 (old : Nat) | rr4 | rr5
   | un1
-  | a1 | a2 (cur : Nat) | a3 (cur raw : Nat)
+  | a1 | a2 (cur : Nat) | a3 (cur raw ng : Nat)
   | isg
+  | arc (r : Res)     -- about to release the handle's reference to the queue (no event)
   -- teardown
   | tdb (i : Nat) | tdbd (i : Nat)
   | tm1 (c : Nat) | tm2 (c : Nat) | tm3 (c : Nat) | tmd (c : Nat) | tm4 (c : Nat)
@@ -214,6 +217,7 @@ inductive Label where
   | call (t : Nat) (o : Outer) (g v ng ns : Nat)
   | run (t : Nat) (inp : Nat)        -- `inp`: value of words the model does not cover (signal epoch bit)
   | retn (t : Nat)
+  | arc (t : Nat)                    -- the handle's `Arc` is released; the last one runs the destructor
   | wake (t : Nat)                   -- a condvar waiter that was notified re-acquires and releases the lock
   deriving Repr
 
@@ -244,14 +248,18 @@ def afterNotify (σ : St) (t : Nat) (k : Nat) : St :=
   | 0 => σ.goto t (.ret .ok)
   | 2 => σ.goto t (.ret .ready)
   | 4 => σ.goto t (.ret (.some_ (σ.th t).v))
-  | 3 => if σ.live = 0 then (if σ.bcast then σ.goto t (.tdb 0) else σ.goto t (.tm1 σ.lastPos)) else σ.goto t (.ret .dropped)
+  | 3 => σ.goto t (.arc .dropped)
   | _ => σ.goto t (.ret .dropped)
 
 /-- the program that runs when the last handle is gone -/
-def teardownStart (σ : St) (t : Nat) (r : Res) : St :=
-  if σ.live = 0 then
-    if σ.bcast then σ.goto t (.tdb 0) else σ.goto t (.tm1 σ.lastPos)
-  else σ.goto t (.ret r)
+def teardownStart (σ : St) (t : Nat) (r : Res) : St := σ.goto t (.arc r)
+
+/-- releasing the `Arc`: the last handle runs `Drop for MultiQueue` -/
+def arcStep (σ : St) (t : Nat) (r : Res) : St :=
+  let σ1 := { σ with live := σ.live - 1 }
+  if σ1.live = 0 then
+    if σ.bcast then σ1.goto t (.tdb 0) else σ1.goto t (.tm1 σ.lastPos)
+  else σ1.goto t (.ret r)
 
 /-- start the waiter's `notify` and continue with code `k` -/
 def startNotify (σ : St) (t : Nat) (k : Nat) : St :=
@@ -290,17 +298,20 @@ def sendDone (σ : St) (t : Nat) (r : Res) : St :=
 
 /-- start a wait on slot `j` with sequence `seq` -/
 def startWait (σ : St) (t : Nat) (j seq : Nat) : St :=
+  let o := (σ.th t).outer
+  let blockingCall := o = Outer.recv || o = Outer.recvView || o = Outer.futRecvView
   match σ.wait with
+  | .fut a b =>
+      if blockingCall then σ.goto t (.c1 j seq .futw)
+      else if 0 < a then σ.goto t (.c1 j seq (.spin1 a))
+      else if 0 < b then σ.goto t (.wy j seq (.spin2 b))
+      else σ.goto t (.pk j seq)
   | .busy => σ.goto t (.c1 j seq .busy)
-  | .yielding a b => if 0 < a then σ.goto t (.c1 j seq (.spin1 a)) else σ.goto t (.wy j seq (.yloop b))
+  | .yielding a b => if 0 < a then σ.goto t (.c1 j seq (.spin1 a)) else σ.goto t (.wy j seq (.yloop (max b 1)))
   | .blocking a b =>
       if 0 < a then σ.goto t (.c1 j seq (.spin1 a))
       else if 0 < b then σ.goto t (.wy j seq (.spin2 b))
       else σ.goto t (.wl j seq)
-  | .fut a b =>
-      if 0 < a then σ.goto t (.c1 j seq (.spin1 a))
-      else if 0 < b then σ.goto t (.wy j seq (.spin2 b))
-      else σ.goto t (.pk j seq)
 
 /-- an inner `try_recv`/`try_recv_view` finished: `r` is `okv v`, `empty` (slot j) or `disc` -/
 def recvDone (σ : St) (t : Nat) (r : Res) (j : Nat) : St :=
@@ -308,7 +319,7 @@ def recvDone (σ : St) (t : Nat) (r : Res) (j : Nat) : St :=
   match x.outer with
   | .recv | .recvView | .futRecvView =>
       match r with
-      | .okv v => if x.outer = .futRecvView then (σ.setTh t fun y => { y with v := v }).goto t (.nf true 5) else σ.goto t (.ret (.okv v))
+      | .okv v => if x.outer = .futRecvView || (σ.hs x.g).fut then (σ.setTh t fun y => { y with v := v }).goto t (.nf true 5) else σ.goto t (.ret (.okv v))
       | .disc => if x.outer = .futRecvView then (σ.setTh t fun y => { y with v := 0 }).goto t (.nf true 7) else σ.goto t (.ret .disc)
       | _ => σ.goto t (.w0 j)
   | .poll _ =>
@@ -321,7 +332,12 @@ def recvDone (σ : St) (t : Nat) (r : Res) (j : Nat) : St :=
       | .okv v => (σ.setTh t fun y => { y with v := v }).goto t (.nf true 5)
       | .disc => (σ.setTh t fun y => { y with v := 0 }).goto t (.nf true 7)
       | _ => (σ.setTh t fun y => { y with v := 0 }).goto t (.nf true 8)
-  | _ => σ.goto t (.ret r)
+  | _ =>
+      if (σ.hs x.g).fut then
+        match r with
+        | .okv v => (σ.setTh t fun y => { y with v := v }).goto t (.nf true 5)
+        | r => σ.goto t (.ret r)
+      else σ.goto t (.ret r)
 
 /-- a wait finished (check was true): retry the receive -/
 def waitDone (σ : St) (t : Nat) : St :=
@@ -338,7 +354,7 @@ def checkDone (σ : St) (t : Nat) (j seq : Nat) (ph : WPh) (b : Bool) : St :=
       if b then waitDone σ t
       else if 1 < k then σ.goto t (.c1 j seq (.spin1 (k-1)))
       else match σ.wait with
-        | .yielding _ b2 => σ.goto t (.wy j seq (.yloop b2))
+        | .yielding _ b2 => σ.goto t (.wy j seq (.yloop (max b2 1)))
         | .blocking _ b2 => if 0 < b2 then σ.goto t (.wy j seq (.spin2 b2)) else σ.goto t (.wl j seq)
         | .fut _ b2 => if 0 < b2 then σ.goto t (.wy j seq (.spin2 b2)) else σ.goto t (.pk j seq)
         | .busy => σ.goto t (.c1 j seq .busy)
@@ -352,8 +368,8 @@ def checkDone (σ : St) (t : Nat) (j seq : Nat) (ph : WPh) (b : Bool) : St :=
       if b then waitDone σ t
       else if 1 < k then σ.goto t (.c1 j seq (.yloop (k-1)))
       else match σ.wait with
-        | .yielding _ b2 => σ.goto t (.wy j seq (.yloop b2))
-        | _ => σ.goto t (.wy j seq (.yloop 0))
+        | .yielding _ b2 => σ.goto t (.wy j seq (.yloop (max b2 1)))
+        | _ => σ.goto t (.wy j seq (.yloop 1))
   | .locked =>
       -- under the BlockingWait lock
       if b then waitDone { σ with wlockOwner := none } t
@@ -363,12 +379,13 @@ def checkDone (σ : St) (t : Nat) (j seq : Nat) (ph : WPh) (b : Bool) : St :=
       -- FutWait::park under the list lock
       if b then waitDone σ t       -- unlock, fut_wait returns false: loop
       else ({ σ with cwaitL := σ.cwaitL ++ [t] }).goto t .psl
+  | .futw => if b then waitDone σ t else σ.goto t (.wy j seq .futw)
 
 /-- Nat-level meaning of `wait::check(seq, tag, writers)` -/
 def checkVal (seq : Nat) (tg : Option Nat) (writers : Nat) : Bool :=
   writers == 0 ||
   (match tg with
-   | none => true                -- INITIAL_QUEUE_FLAG: rm_tag gives 2^63-1, `past` is true  [F7]
+   | none => false               -- INITIAL_QUEUE_FLAG: nothing was written to the slot yet
    | some c => seq == c || seq < c)
 
 /-! ### the step function: expected observation and successor state -/
@@ -391,7 +408,7 @@ def stepRun (σ0 : St) (t : Nat) (inp : Nat) : Obs × St :=
   | .s0 =>
       let flags := (if σ0.noReader then 2 else 0) + (inp % 2)
       let o := mkObs σ0 t .load .signal .rlx (res := flags)
-      if σ0.noReader then (o, sendDone σ t .full)          -- [F3] the code returns Full here
+      if σ0.noReader then (o, sendDone σ t .disc)
       else if h_.uni then (o, σ.goto t (.sh false))
       else (o, σ.goto t .m1)
   | .m1 =>
@@ -522,22 +539,26 @@ def stepRun (σ0 : St) (t : Nat) (inp : Nat) : Obs × St :=
   | .r2 p sg =>
       let o := mkObs σ0 t .load .writers .rlx (res := σ0.writers)
       if σ0.writers = 0 then (o, σ.gotoF t (.r3 p sg) [.acq]) else (o, recvDone σ t .empty (p % N))
-  | .r3 p _ =>
+  | .r3 p sg =>
       let tg := σ0.tag (p % N)
       let o := mkObs σ0 t .load (.tag (p % N)) .acq (res := encTag tg)
-      if tg = some p then (o, recvDone σ t .empty (p % N)) else (o, recvDone σ t .disc (p % N))
+      if tg = some p then (o, recvDone σ t .empty (p % N)) else (o, σ.goto t (.r3b p sg))
+  | .r3b p sg =>
+      -- the position may have been taken by a sibling consumer: then the mismatch means nothing
+      let o := mkObs σ0 t .load (.pos s) .rlx (res := σ0.pos s)
+      if σ0.pos s = p then (o, recvDone σ t .disc (p % N)) else (o, σ.goto t (.r7 sg))
   | .r4 p =>
       (mkObs σ0 t .fadd (.ref (p % N)) .rlx (a := 1) (res := σ0.ref (p % N)),
        ({ σ with ref := upd σ0.ref (p % N) (σ0.ref (p % N) + 1) }).goto t (.r5 p false))
   | .r5 p sg =>
       let o := mkObs σ0 t .load (.pos s) .rlx (res := σ0.pos s)
       if σ0.pos s = p then (o, σ.goto t (.rd p sg))
-      else if σ0.bcast then (o, σ.goto t (.r6 p)) else (o, σ.goto t .r7)
+      else if σ0.bcast then (o, σ.goto t (.r6 p)) else (o, σ.goto t (.r7 sg))
   | .r6 p =>
       (mkObs σ0 t .fsub (.ref (p % N)) .rlx (a := 1) (res := σ0.ref (p % N)),
-       ({ σ with ref := upd σ0.ref (p % N) (σ0.ref (p % N) - 1) }).goto t .r7)
-  | .r7 =>
-      (mkObs σ0 t .load (.pos s) .rlx (res := σ0.pos s), σ.goto t (.r1 (σ0.pos s) false))
+       ({ σ with ref := upd σ0.ref (p % N) (σ0.ref (p % N) - 1) }).goto t (.r7 false))
+  | .r7 sg =>
+      (mkObs σ0 t .load (.pos s) .rlx (res := σ0.pos s), σ.goto t (.r1 (σ0.pos s) sg))
   | .rd p sg =>
       let c := σ0.cont (p % N)
       let o := mkObs σ0 t .tauRead (.val (p % N))
@@ -591,18 +612,16 @@ def stepRun (σ0 : St) (t : Nat) (inp : Nat) : Obs × St :=
        recvDone ({ σ with pos := upd σ0.pos s (p + 1), dlv := upd σ0.dlv s (σ0.dlv s ++ [v]) }) t (.okv v) (p % N))
   ---------------------------------------------------------------- waits
   | .w0 j =>
-      -- [F2] the count is re-loaded here, it is not the position the failed try examined
-      (mkObs σ0 t .load (.pos s) .rlx (res := σ0.pos s), startWait σ t j (σ0.pos s))
+      -- the count is re-loaded here; `recv` and the shared `poll` retry when it lives in another slot
+      let o := mkObs σ0 t .load (.pos s) .rlx (res := σ0.pos s)
+      let guarded := x.outer = Outer.recv || x.outer = Outer.poll false
+      if guarded && σ0.pos s % N != j then (o, σ.goto t .la1) else (o, startWait σ t j (σ0.pos s))
   | .c1 j seq ph =>
       (mkObs σ0 t .load (.tag j) .rlx (res := encTag (σ0.tag j)), σ.goto t (.c2 j seq ph (σ0.tag j)))
   | .c2 j seq ph tg =>
       (mkObs σ0 t .load .writers .rlx (res := σ0.writers), checkDone σ t j seq ph (checkVal seq tg σ0.writers))
   | .wy j seq ph =>
       match ph with
-      | .yloop k =>
-          -- Yielding: `loop { yield; k × check }`; with k = 0 the loop never checks  [F6]
-          if 0 < k then (mkObs σ0 t .yield_ .anon, σ.goto t (.c1 j seq (.yloop k)))
-          else (mkObs σ0 t .yield_ .anon, σ.goto t (.wy j seq (.yloop 0)))
       | ph => (mkObs σ0 t .yield_ .anon, σ.goto t (.c1 j seq ph))
   | .wl j seq => (mkObs σ0 t .lock .wlock, ({ σ with wlockOwner := some t }).goto t (.c1 j seq .locked))
   | .wcvw j seq =>
@@ -610,6 +629,7 @@ def stepRun (σ0 : St) (t : Nat) (inp : Nat) : Obs × St :=
       -- drops the guard at the end of the block
       (mkObs σ0 t .cvwait .wcv (a := 0), ({ σ with wlockOwner := none, cvWaiters := σ0.cvWaiters ++ [t] }).goto t (.wblk j seq))
   | .wblk _ _ => (defaultObs, σ0)
+  | .arc _ => (defaultObs, σ0)
   | .pk j seq => (mkObs σ0 t .lock .cwait, σ.goto t (.c1 j seq .parked))
   | .psl => (mkObs σ0 t .sleep .anon (a := 100), σ.goto t (.ret .notready))
   ---------------------------------------------------------------- handle management
@@ -617,7 +637,7 @@ def stepRun (σ0 : St) (t : Nat) (inp : Nat) : Obs × St :=
       (mkObs σ0 t .fadd .writers .sc (a := 1) (res := σ0.writers),
        ({ σ with writers := σ0.writers + 1, live := σ0.live + 1 }).goto t (.ret .new))
   | .ds1 =>
-      let σ1 := { σ with writers := σ0.writers - 1, live := σ0.live - 1 }
+      let σ1 := { σ with writers := σ0.writers - 1 }
       let o := mkObs σ0 t .fsub .writers .sc (a := 1) (res := σ0.writers)
       -- fence, remove_token (manager), then waiter.notify()
       match σ0.wait with
@@ -626,7 +646,7 @@ def stepRun (σ0 : St) (t : Nat) (inp : Nat) : Obs × St :=
       | _ => (o, (teardownStart σ1 t .dropped).setTh t fun y => { y with ff := y.ff ++ [.sc] })
   | .cr1 =>
       (mkObs σ0 t .fadd (.ncons s) .sc (a := 1) (res := σ0.ncons s),
-       (({ σ with ncons := upd σ0.ncons s (σ0.ncons s + 1), live := σ0.live + 1 }).setHd g fun y => { y with uni := false }).goto t
+       (({ σ with ncons := upd σ0.ncons s (σ0.ncons s + 1), live := if x.outer = Outer.intoSingleFut then σ0.live else σ0.live + 1 }).setHd g fun y => { y with uni := false }).goto t
          (if x.outer = Outer.intoSingleFut then PC.dr1 else PC.ret .new))
   | .un1 =>
       -- [F9] the boolean comes from this load, not from the decrement
@@ -634,19 +654,20 @@ def stepRun (σ0 : St) (t : Nat) (inp : Nat) : Obs × St :=
        (σ.setTh t fun y => { y with aux := if σ0.ncons s = 1 then 1 else 0 }).goto t .dr1)
   | .dr1 =>
       let o := mkObs σ0 t .fsub (.ncons s) .sc (a := 1) (res := σ0.ncons s)
-      let σ1 := { σ with ncons := upd σ0.ncons s (σ0.ncons s - 1), live := σ0.live - 1 }
+      let σ1 := { σ with ncons := upd σ0.ncons s (σ0.ncons s - 1) }
       if σ0.ncons s = 1 then (o, σ1.goto t .rr1) else (o, recvDropEnd σ1 t x [.sc])
-  | .rr1 => (mkObs σ0 t .load .readers .acq (res := σ0.cur), σ.goto t (.rr2 σ0.cur))
-  | .rr2 cur =>
+  | .rr1 =>
+      -- the replacement group is allocated right after this load
+      (mkObs σ0 t .load .readers .acq (res := σ0.cur), ({ σ with nextGrp := σ0.nextGrp + 1 }).goto t (.rr2 σ0.cur σ0.nextGrp))
+  | .rr2 cur ng =>
       let okk := σ0.cur = cur
-      let ng := σ0.nextGrp
       let o := mkObs σ0 t .cas .readers .sc .sc (a := cur) (b := ng) (res := σ0.cur) (ok := okk)
       let newl := (σ0.groups cur).filter (· != s)
-      let σ1 := { σ with groups := upd σ0.groups ng newl, nextGrp := ng + 1 }
+      let σ1 := { σ with groups := upd σ0.groups ng newl }
       if okk then
         let σ2 := { σ1 with cur := ng }
         if (σ0.groups cur).length = 1 then (o, σ2.gotoF t (.rr3 cur) [.sc]) else (o, σ2.gotoF t .rr4 [.sc])
-      else (o, σ1.goto t (.rr2 σ0.cur))
+      else (o, ({ σ1 with nextGrp := σ0.nextGrp + 1 }).goto t (.rr2 σ0.cur σ0.nextGrp))
   | .rr3 _ =>
       (mkObs σ0 t .load (.pos s) .rlx (res := σ0.pos s), ({ σ with lastPos := σ0.pos s }).goto t .rr4)
   | .rr4 =>
@@ -656,16 +677,17 @@ def stepRun (σ0 : St) (t : Nat) (inp : Nat) : Obs × St :=
       let flags := (if σ0.noReader then 2 else 0) + (inp % 2)
       (mkObs σ0 t .for_ .signal .sc (a := 2) (res := flags), recvDropEnd ({ σ with noReader := true }) t x [.sc])
   | .a1 => (mkObs σ0 t .load .readers .acq (res := σ0.cur), σ.goto t (.a2 σ0.cur))
-  | .a2 cur => (mkObs σ0 t .load (.pos s) .rlx (res := σ0.pos s), σ.gotoF t (.a3 cur (σ0.pos s)) [.sc])
-  | .a3 cur raw =>
+  | .a2 cur =>
+      (mkObs σ0 t .load (.pos s) .rlx (res := σ0.pos s),
+       ({ σ with nextGrp := σ0.nextGrp + 1 }).gotoF t (.a3 cur (σ0.pos s) σ0.nextGrp) [.sc])
+  | .a3 cur raw ng =>
       let okk := σ0.cur = cur
-      let ng := σ0.nextGrp
       let o := mkObs σ0 t .cas .readers .rlx .rlx (a := cur) (b := ng) (res := σ0.cur) (ok := okk)
-      let σ1 := { σ with groups := upd σ0.groups ng (σ0.groups cur ++ [x.ns]), nextGrp := ng + 1 }
+      let σ1 := { σ with groups := upd σ0.groups ng (σ0.groups cur ++ [x.ns]) }
       if okk then
         let σ2 := { σ1 with cur := ng, pos := upd σ0.pos x.ns raw, ncons := upd σ0.ncons x.ns 1,
                             start := upd σ0.start x.ns raw, dlv := upd σ0.dlv x.ns [],
-                            live := σ0.live + 1, taintAdd := σ0.taintAdd || (σ0.pos s != raw) }
+                            live := (if x.outer = Outer.intoMultiFut then σ0.live else σ0.live + 1), taintAdd := σ0.taintAdd || (σ0.pos s != raw) }
         if x.outer = Outer.intoMultiFut then (o, σ2.gotoF t .dr1 [.sc]) else (o, σ2.gotoF t (.ret .new) [.sc])
       else (o, σ1.gotoF t (.a2 σ0.cur) [.acq])
   | .isg =>
@@ -755,6 +777,10 @@ def step (σ : St) : Label → St
           | .intoMulti => σ1.setHd x.g fun y => { y with view := false }
           | .intoMultiFut => σ1.setHd x.g fun y => { y with view := false, stream := x.ns, uni := true }
           | _ => σ1
+      | _ => σ
+  | .arc t =>
+      match (σ.th t).pc with
+      | .arc r => arcStep σ t r
       | _ => σ
   | .wake t =>
       match (σ.th t).pc with
